@@ -1226,7 +1226,7 @@ class Corr:
                     newcontent.append(self.content[t] / y)
             return Corr(newcontent, prange=self.prange)
 
-        elif isinstance(y, (int, float)):
+        elif isinstance(y, (int, float, complex)):
             if y == 0:
                 raise ValueError('Division by zero will return undefined correlator')
             newcontent = []
@@ -1334,7 +1334,7 @@ class Corr:
         return self * y
 
     def __rtruediv__(self, y):
-        return (self / y) ** (-1)
+        return (self ** (-1)) * y
 
     @property
     def real(self):
